@@ -1,5 +1,5 @@
 """C16 — recorded size and timestamps describe the real file in any time zone."""
-import os, time, random, json, glob, datetime, re, calendar
+import math, os, time, random, json, glob, datetime, re, calendar
 from zoneinfo import ZoneInfo
 from .. import rt, framework as fw, witnesses
 from ..model import Driver
@@ -135,7 +135,7 @@ def run(ctx):
             with rt.tempdir("c16_") as d:
                 root = os.path.join(d, "root")
                 os.makedirs(root)
-                sizes = {"empty.bin": 0, "one.bin": 1, "k.bin": 1000, "big.bin": 70000, "old69.bin": 69, "old68.bin": 68, "epoch.bin": 70}
+                sizes = {"empty.bin": 0, "one.bin": 1, "k.bin": 1000, "big.bin": 70000, "old69.bin": 69, "old68.bin": 68, "epoch.bin": 70, "oldfrac.bin": 71, "frac.bin": 72}
                 mt = {}
                 # file times: prefer instants in the second pass of a repeated hour and right after a gap
                 folds = [q for q in pts if datetime.datetime.fromtimestamp(q).fold]
@@ -150,8 +150,13 @@ def run(ctx):
                         ts = calendar.timegm((1968, 1, 15, 3, 30, 0))
                     if n == "epoch.bin":
                         ts = 0
+                    if n == "oldfrac.bin":
+                        ts = calendar.timegm((1969, 7, 5, 0, 0, 0)) - 0.5  # a fraction of a second, before the epoch
+                    if n == "frac.bin":
+                        ts = ts + 0.75
                     os.utime(p, (ts, ts))
-                    mt[n] = ts
+                    # (the second the file was modified IN: the record carries whole seconds)
+                    mt[n] = math.floor(ts)
                 # a file reached through a symbolic link is hashed through the link: its record carries the size and
                 # time of the content that was hashed
                 try:
@@ -196,6 +201,18 @@ def run(ctx):
                         inst, off, _ = parse_iso(e_["hashdate"])
                         if not (t0 - 2 <= inst <= t1 + 2) or off != offset_at(z, int(inst)):
                             fails.append({"what": f"TZ={z}: hashdate {e_['hashdate']} of {n} does not denote the time of the run", "replay": {"tz": z}})
+                # the date in the manifest's name is the calendar date (UTC), also in the days around New Year that belong to
+                # a week of the neighbouring year
+                for now in ("2021-01-01 12:00:00", "2024-12-30 08:00:00", "2027-01-02 23:59:59", "2026-12-31 23:59:59"):
+                    with rt.tempdir("c16n_") as d2:
+                        r2 = os.path.join(d2, "reel")
+                        rt.mk(r2, {"a.txt": "a"})
+                        x2 = rt.run("create", [r2, "-h", "md5"], now)
+                        evals += 1
+                        nm = [os.path.basename(q) for q in glob.glob(os.path.join(r2, "ascmhl", "*.mhl"))]
+                        want = "0001_reel_" + now.replace(" ", "_").replace(":", "") + "Z.mhl"
+                        if x2.exit != 0 or nm != [want]:
+                            fails.append({"what": f"TZ={z}: create at {now} UTC names its manifest {nm}, expected {want}", "replay": {"tz": z, "now": now}})
                 # the history is flattened on a machine in ANOTHER zone: the dates carried over denote the same instants
                 z2 = zones[(zones.index(z) + 3) % len(zones)]
                 set_tz(z2)
